@@ -489,6 +489,12 @@ func (g *commonGen) template(w *World, name string, b int) []Step {
 		if a < len(w.Accts) && w.KB.TOTPSecret[a] != "" {
 			out = append(out, Step{Kind: "totp_validate", B: b, A: a, Sec: &SecretRef{Kind: "totp", A: a}})
 			sec, str := g.codeFor(w, "totp_remove", a, b)
+			if g.r.Chance(1, 3) {
+				// a re-enrolment is started and abandoned: the code of the
+				// secret waiting in the session is not a code of the account
+				out = append(out, Step{Kind: "totp_setup", B: b, A: a})
+				sec, str = &SecretRef{Kind: "totp_pending", A: b}, nil
+			}
 			out = append(out, Step{Kind: "totp_remove", B: b, A: a, Sec: sec, Str: str})
 		} else if a < len(w.Accts) && w.KB.SMSNumber[a] != "" {
 			out = append(out, Step{Kind: "sms_validate", B: b, A: a, Sec: &SecretRef{Kind: "sms", A: -1, Idx: -1}},
@@ -502,6 +508,10 @@ func (g *commonGen) template(w *World, name string, b int) []Step {
 		if g.r.Bool() {
 			// otherwise the very first request the cookie authenticates is the sensitive one
 			out = append(out, g.fill(w, "probe", b))
+		}
+		if g.r.Chance(1, 3) {
+			// the password again (for an account with a second factor this only parks a login)
+			out = append(out, Step{Kind: "login", B: b, A: a, Sec: pw(a)})
 		}
 		for _, k := range []string{"totp_setup", "recovery_regen", "totp_remove", "sms_remove", "sms_setup"} {
 			if g.r.Bool() {
@@ -565,6 +575,12 @@ func (g *commonGen) template(w *World, name string, b int) []Step {
 			out = append(out, Step{Kind: "totp_validate", B: b, A: a, Sec: &SecretRef{Kind: "totp", A: a}})
 		}
 		return out
+	case "cookie_rotation_fails":
+		// the store fails between consuming the presented token and saving its replacement
+		site := []string{"db.AddRememberToken", "db.UseRememberToken"}[g.r.Intn(2)]
+		return []Step{{Kind: "drop_session", B: b}, {Kind: "login", B: b, A: a, Sec: pw(a), RM: true}, {Kind: "drop_session", B: b},
+			{Kind: "probe", B: b, Str: map[string]string{"path": "/probe/open"}, Fault: &FaultDirective{Site: site, Index: 0, Kind: "err"}},
+			g.fill(w, "probe", b), {Kind: "drop_session", B: b}, g.fill(w, "probe", b)}
 	case "forged_cookie":
 		// a well-formed cookie naming a real account that was never issued, while the token store misbehaves
 		st := g.fill(w, "probe", b)
